@@ -6,6 +6,10 @@
      c12_cell    label|string|labelsst|bsheet <hex body> [<strings>]
      c12_cellenc label|string|bsheet <hb> <units> <extra hex> / labelsst <row> <col> <i>
                                                      (model only): legal|known|spec|model|body
+     c12_fstrenc <hb0> <units> <cuts n:hb+n:hb…|-> <trailing flag-only CONTINUEs, hex flags|->
+                                                     formula string result (model only): runs the
+                                                     writer fstring_encode and the String arm,
+                                                     answers legal|known|spec|model|STRING body|conts
      c12_records <hex stream>
      c12_open    <hex Workbook stream>               (the harness gets the path of the file) *)
 open Conv
@@ -143,6 +147,29 @@ let cellenc (args : string list) : string =
                spec; cell_model kind body []; hex_of_bytes body ]
   | _ -> "bad-args"
 
+let parse_cuts (s : string) : (Datatypes.nat * bool) list =
+  if s = "-" || s = "" then [] else
+  List.map (fun c ->
+      match String.split_on_char ':' c with
+      | [n; hb] -> (nat_of_int (int_of_string n), bool_of hb)
+      | _ -> failwith "bad cut") (String.split_on_char '+' s)
+
+(* a formula's string result over STRING + CONTINUE records: legal|known|spec|model|data|conts.
+   The last argument appends CONTINUE records holding only a flag byte (legal after the last
+   character: the arm has read cch characters and ignores them) *)
+let fstrenc (args : string list) : string =
+  match args with
+  | [hb; units; cuts; trail] ->
+    let hb = bool_of hb and us = units_of_hex units and cuts = parse_cuts cuts in
+    let trail = if trail = "-" then [] else List.map (fun b -> [b]) (bytes_of_hex trail) in
+    let legal = legal_fstring us hb cuts in
+    let st = fstring_encode us hb cuts in
+    let conts = snd st @ trail in
+    let spec = "ok:" ^ hex_of_scalars (utf16_decode us) in
+    let model = show_outcome (fun s -> "ok:" ^ hex_of_scalars s) (string_arm (fst st) (cont_opt conts)) in
+    join "|" [ (if legal then "1" else "0"); "-"; spec; model; hex_of_bytes (fst st); show_conts conts ]
+  | _ -> "bad-args"
+
 let show_rec (it : rec_item outcome) : string =
   match it with
   | Ok ((t, d), c) ->
@@ -186,7 +213,13 @@ let parse_cell (s : string) : cell_spec =
   match String.split_on_char ':' s with
   | ["s"; r; c; i] -> CSst (n_of_string r, n_of_string c, n_of_string i)
   | ["l"; r; c; hb; u] -> CLabel (n_of_string r, n_of_string c, bool_of hb, units_of_hex u)
-  | ["f"; r; c; hb; u] -> CFString (n_of_string r, n_of_string c, bool_of hb, units_of_hex u)
+  | ["f"; r; c; hb; u] -> CFString (n_of_string r, n_of_string c, bool_of hb, units_of_hex u, [])
+  | ["f"; r; c; hb; u; cuts] ->
+    (* cuts of a continued result: n.hb/n.hb (':' and '+' are taken by the cell syntax) *)
+    let cuts = List.map (fun x -> match String.split_on_char '.' x with
+        | [n; h] -> (nat_of_int (int_of_string n), bool_of h)
+        | _ -> failwith "bad cut") (split '/' cuts) in
+    CFString (n_of_string r, n_of_string c, bool_of hb, units_of_hex u, cuts)
   | _ -> failwith "bad cell"
 let parse_sheet (s : string) : sheet_spec =
   match String.split_on_char ',' s with
@@ -219,6 +252,7 @@ let () =
   Registry.register "c12_sst" sstraw;
   Registry.register "c12_cell" cell;
   Registry.register "c12_cellenc" cellenc;
+  Registry.register "c12_fstrenc" fstrenc;
   Registry.register "c12_records" records_cmd;
   Registry.register "c12_open" open_cmd
 let init () = ()
